@@ -49,6 +49,20 @@ def prefixInfoMarshal (plen : UInt8) (onLink auto : Bool) (validS prefS : UInt32
       be32Bytes prefS ++ [0, 0, 0, 0] ++ pad16 pfx)
   else .err .other
 
+/-- a prefix in a slot of `m` bytes: `copy(raw.Value[6:], prefix)` copies at most `m` bytes, the rest stays zero -/
+def padTo (m : Nat) (s : Bytes) : Bytes := s.take m ++ List.replicate (m - (s.take m).length) 0
+
+/-- `(*RouteInformation).marshal` (RFC 4191 2.3): option 24; the prefix takes 0, 8 or 16 bytes for a prefix length of 0,
+    1..64, 65..128 (a longer one is refused), length = that many 8-byte units + 1; prefix length, preference in bits 3-4,
+    route lifetime (s), the prefix clipped / zero-padded to its slot; refused unless the prefix equals itself masked -/
+def routeInfoMarshal (plen prf : UInt8) (lifeS : UInt32) (pfx : Bytes) (maskOk : Bool) : Outcome Bytes :=
+  if maskOk then
+    if plen = 0 then .ok ([24, 1, plen, prf <<< 3] ++ be32Bytes lifeS)
+    else if plen < 65 then .ok ([24, 2, plen, prf <<< 3] ++ be32Bytes lifeS ++ padTo 8 pfx)
+    else if plen < 129 then .ok ([24, 3, plen, prf <<< 3] ++ be32Bytes lifeS ++ padTo 16 pfx)
+    else .err .other
+  else .err .other
+
 /-- `marshalOptions`: the encodings in order; the first option that fails (error or panic) decides -/
 def optionsMarshal : List (Outcome Bytes) → Outcome Bytes
   | [] => .ok []
